@@ -213,6 +213,125 @@ theorem shipped_call (e : Entry) (he : e ∈ allPairs)
   simp only [emitNode] at hc
   exact ⟨hc.2.2.2.1, hc.2.2.2.2.1⟩
 
+/-! ## requiredness and defaults: every spelling of an attribute argument, error branch included -/
+
+/-- **conforming_call_total.** For *any* constructor/schema pair with `conformsTo c s` and *any*
+    spelling of each attribute argument — left out, `None`, a value of the attribute's kind, a value
+    that is not (`Spell`) — the `Attributes(...)` expression of the constructor body
+    1. raises (`TypeError` family) **iff** some schema attribute is spelled in a way its schema entry
+       refuses: a malformed value; left out although required; `None` although required *or*
+       although the schema has a default for it (`AttrX(None, …)` raises, it never invents a value);
+    2. otherwise yields, for each schema attribute in turn: the value given under the schema name;
+       else (left out, or `None` on an optional attribute without default) the schema default if
+       there is one; else nothing. -/
+theorem conforming_call_total (c : Ctor) (s : Schema) (h : conformsTo c s = true)
+    (spelled : String → Spell) :
+    (callAttrsE c spelled = none ↔ ∃ a ∈ s.attrs, rejects a (spelled a.name) = true) ∧
+    (∀ l, callAttrsE c spelled = some l →
+      l = List.zipWith (acceptedAttr spelled) s.attrs c.attrWires ∧
+      emitAttrs l = (List.zipWith (acceptedAttr spelled) s.attrs c.attrWires).filterMap id) := by
+  simp only [conformsTo, Bool.and_eq_true, beq_iff_eq, and_assoc] at h
+  obtain ⟨_, _, _, _, _, _, _, _, h8, _⟩ := h
+  have hat := callAttrsE_of_attrsOK c.params spelled _ _ _ h8
+  have hlen := attrsOK_length _ _ _ _ h8
+  unfold callAttrsE
+  rw [hat]
+  constructor
+  · rw [allSome_eq_none]
+    constructor
+    · intro hm
+      obtain ⟨i, hi, he⟩ := List.getElem_of_mem hm
+      simp only [List.getElem_zipWith, expectedAttrE] at he
+      refine ⟨s.attrs[i]'(by simp at hi; omega), List.getElem_mem _, ?_⟩
+      cases hr : rejects (s.attrs[i]'(by simp at hi; omega)) (spelled (s.attrs[i]'(by simp at hi; omega)).name) with
+      | true => rfl
+      | false => simp [hr] at he
+    · intro ⟨a, ha, hr⟩
+      obtain ⟨i, hi, he⟩ := List.getElem_of_mem ha
+      have hi' : i < c.attrWires.length := by omega
+      have : (List.zipWith (expectedAttrE spelled) s.attrs c.attrWires)[i]'(by simp; omega) = none := by
+        simp [List.getElem_zipWith, expectedAttrE, he, hr]
+      rw [← this]
+      exact List.getElem_mem _
+  · intro l hl
+    rw [allSome_eq_some] at hl
+    have key : l = List.zipWith (acceptedAttr spelled) s.attrs c.attrWires := by
+      apply List.ext_getElem
+      · have := congrArg List.length hl
+        simpa using this.symm
+      · intro i h1 h2
+        have := congrArg (fun x => x[i]?) hl
+        simp only [List.getElem?_map, List.getElem?_zipWith] at this
+        simp only [List.length_zipWith] at h2
+        rw [List.getElem?_eq_getElem (by omega), List.getElem?_eq_getElem (by omega),
+          List.getElem?_eq_getElem h1] at this
+        simp only [Option.map_some, Option.some.injEq, expectedAttrE] at this
+        split at this
+        · cases this
+        · simp only [Option.some.injEq] at this
+          simp [List.getElem_zipWith, this]
+    exact ⟨key, by rw [emitAttrs_eq_filterMap, key]⟩
+
+/-- **none_never_invents.** `None` on a *required* attribute, or on an attribute the schema has a
+    default for, makes a conforming constructor raise — whatever the other arguments are. In
+    particular `cast(x, to=None)` cannot come out as `to=DOUBLE`, nor `random_normal(dtype=None)` as
+    anything but an exception. -/
+theorem none_never_invents (c : Ctor) (s : Schema) (h : conformsTo c s = true)
+    (spelled : String → Spell) (a : SAttr) (ha : a ∈ s.attrs)
+    (hn : spelled a.name = Spell.none) (hreq : a.required = true ∨ a.default ≠ Val.none) :
+    callAttrsE c spelled = none := by
+  refine ((conforming_call_total c s h spelled).1).mpr ⟨a, ha, ?_⟩
+  rcases hreq with hr | hd
+  · simp [rejects, hn, hr]
+  · simp [rejects, hn, hd]
+
+/-- a malformed value makes a conforming constructor raise; so does leaving out a required attribute -/
+theorem malformed_raises (c : Ctor) (s : Schema) (h : conformsTo c s = true)
+    (spelled : String → Spell) (a : SAttr) (ha : a ∈ s.attrs)
+    (hb : spelled a.name = Spell.bad ∨ (spelled a.name = Spell.omitted ∧ a.required = true)) :
+    callAttrsE c spelled = none := by
+  refine ((conforming_call_total c s h spelled).1).mpr ⟨a, ha, ?_⟩
+  rcases hb with hb | ⟨hb, hr⟩
+  · simp [rejects, hb]
+  · simp [rejects, hb, hr]
+
+/-- the well-formed calls of `conforming_call` are the `ok`/`omitted` spellings: on those the two
+    call models agree (so `callAttrsE` extends `callAttrs`, it does not replace it) -/
+theorem total_extends_call (c : Ctor) (s : Schema) (h : conformsTo c s = true)
+    (supplied : String → Option Val) (l : List (Option (String × Val)))
+    (hl : callAttrsE c (fun n => match supplied n with | some v => Spell.ok v | none => Spell.omitted) = some l) :
+    l = callAttrs c supplied := by
+  obtain ⟨hk, _⟩ := (conforming_call_total c s h _).2 l hl
+  have h' := h
+  simp only [conformsTo, Bool.and_eq_true, beq_iff_eq, and_assoc] at h'
+  obtain ⟨_, _, _, _, _, _, _, _, h8, _⟩ := h'
+  rw [hk, callAttrs_eq, callAttrs_of_attrsOK c.params supplied _ _ _ h8]
+  congr 1
+  funext a w
+  simp only [acceptedAttr, expectedAttr]
+  cases supplied a.name <;> rfl
+
+/-- non-vacuity on shipped constructors (this run's extraction): `cast` (required dtype attribute
+    `to`) refuses `None` and a missing `to`, and emits `to=INT32 (6)` for `np.int32`;
+    `random_normal` (dtype with schema default FLOAT, required `shape`) refuses `dtype=None` and
+    emits the default when `dtype` is left out; `eye_like` (optional dtype without default) accepts
+    `None` and emits nothing for it. -/
+example : callAttrsE Generated.Ctors.v17.f_cast (fun _ => Spell.none) = none ∧
+    callAttrsE Generated.Ctors.v17.f_cast (fun _ => Spell.omitted) = none ∧
+    callAttrsE Generated.Ctors.v17.f_cast (fun _ => Spell.bad) = none ∧
+    callAttrsE Generated.Ctors.v17.f_cast (fun _ => Spell.ok (Val.dtype "int32")) =
+      some [some ("to", Val.int 6)] := by decide +kernel
+example : callAttrsE Generated.Ctors.v17.f_random_normal
+      (fun n => if n = "shape" then Spell.ok (Val.ints [2]) else Spell.none) = none ∧
+    (callAttrsE Generated.Ctors.v17.f_random_normal
+      (fun n => if n = "shape" then Spell.ok (Val.ints [2]) else Spell.omitted)).map emitAttrs =
+      some [("dtype", Val.int 1), ("mean", Val.float 0), ("scale", Val.float 1065353216),
+            ("shape", Val.ints [2])] := by decide +kernel
+example : (callAttrsE Generated.Ctors.v17.f_eye_like (fun _ => Spell.none)).map emitAttrs = none ∧
+    (callAttrsE Generated.Ctors.v17.f_eye_like
+      (fun n => if n = "k" then Spell.omitted else Spell.none)).map emitAttrs =
+      some [("k", Val.int 0)] := by decide +kernel
+
 open Generated.Conforms in
 /-- the deviating pairs conform in everything but their listed deviation -/
 theorem table_conforms_except : ∀ d ∈ deviatingPairs, entryOKExcept d.1 d.2 = true := by
